@@ -4,7 +4,8 @@ TLC explores the abstract cache (spec/Cache.tla over spec/CacheRule.tla) exhaust
 prints every history; each is replayed into the real Client against the reference server (str and
 bytes keys, key prefix, default_noreply on/off, noreply passed or left to the documented default,
 reply segmentations); every recorded (call, result) sequence is validated by TLC against the
-abstract cache (spec/CacheTrace.tla)."""
+abstract cache and, call by call, against the wire-level protocol table spec/ClientOps.tla (spec/CacheWireTrace.tla; a
+difference in the commands sent with the same results is MODEL-DRIFT)."""
 from lib import common, tlc, vclock
 from drivers import cachelib as CL
 
@@ -52,19 +53,27 @@ def run(rep, tier, kinds, prop, stackkw=None):
 
 def report(rep, traces, prop):
     t0 = common._real_time()
-    acc, rej, st, tr = tlc.validate_traces("CacheTrace", [{"h": t["h"], "ev": t["ev"]} for t in traces], chunk=6000)
+    acc, rej, st, tr = tlc.validate_traces("CacheWireTrace", [{"h": t["h"], "ev": t["ev"]} for t in traces], chunk=6000)
     rep.add("traces_validated_against_impl", len(traces))
     rep.add("trace_states", st)
     rep.set("t_validate_s", round(common._real_time() - t0, 1))
+    rep.add("calls_whose_wire_commands_were_compared_with_the_model", sum(1 for t in traces for e in t["ev"] if "wcmds" in e))
     for i, lst in sorted(rej.items()):
         t = traces[i]
-        pos, clauses = lst[0]
-        ev = t["ev"][pos - 1]
-        nrs = "noreply" if ev.get("nr") else "reply"
-        rep.violation(f"{prop}/{t['kind']}/{ev.get('op')}/{nrs}/{ev.get('res', {}).get('t')}",
-                      f"{t['kind']}: after history {[(e.get('op', 'tick'), e.get('k', e.get('d'))) for e in t['ev'][:pos - 1]]} "
-                      f"the call {ev} returned a result the abstract cache does not: {clauses}",
-                      {"history": t["ev"][:pos], "variant": t["variant"], "kind": t["kind"]})
+        for pos, clauses in lst:
+            names = [c.strip().strip('"') for c in clauses.strip("{}").split(",")]
+            contract = [n for n in names if not n.startswith("DRIFT-")]
+            ev = t["ev"][pos - 1] if pos <= len(t["ev"]) else {}
+            if not contract:
+                rep.model_drift(f"{t['kind']}: {ev.get('op')} sent {ev.get('wcmds')}, spec/ClientOps.tla predicts other commands "
+                                f"(results as the abstract cache says)", {"event": {k: v for k, v in ev.items() if k != "conn"}})
+                continue
+            nrs = "noreply" if ev.get("nr") else "reply"
+            rep.violation(f"{prop}/{t['kind']}/{ev.get('op')}/{nrs}/{ev.get('res', {}).get('t')}",
+                          f"{t['kind']}: after history {[(e.get('op', 'tick'), e.get('k', e.get('d'))) for e in t['ev'][:pos - 1]]} "
+                          f"the call {ev} returned a result the abstract cache does not: {contract}",
+                          {"history": t["ev"][:pos], "variant": t["variant"], "kind": t["kind"]})
+            break
     return acc, rej
 
 
